@@ -233,6 +233,7 @@ func TestVerif_C05(t *testing.T) {
 		g := vk.NewStoreGen(r, 2+r.IntN(3), tr)
 		loose := r.IntN(5) == 0
 		g.AllowDless = loose
+		g.SelfRef = true // requests that also name themselves, among other targets
 		capacity := capFor(r)
 		if r.IntN(2) == 0 {
 			capacity = 4 + r.IntN(20)
